@@ -399,39 +399,101 @@ func runC18(c *Ctx) {
 	// the @base context entry is produced exactly when relative ids are: under the transformer's includeBase flag and
 	// nothing else (relative key and service ids cannot be resolved without it — services too, in a key-less document)
 	if td := c.Method(pDT, "Transformer", "TransformDocument"); td != nil {
-		var baseCalls []*ssa.Call
+		// the producer of the entry (the function building the literal with the "@base" member) is called in
+		// TransformDocument or in an unexported helper that assembles the context
+		type site struct {
+			host *ssa.Function
+			call ssa.Instruction // the call of the producer, or the literal itself when it is written in place
+		}
+		var sites []site
 		var ctxStore *ssa.MapUpdate
-		forEachInstr(td, func(in ssa.Instruction) {
-			switch x := in.(type) {
-			case *ssa.Call:
-				if g := x.Call.StaticCallee(); g != nil && inModule(g) && g.Blocks != nil {
-					forEachInstr(g, func(i2 ssa.Instruction) {
-						if al, isAl := i2.(*ssa.Alloc); isAl && hasBaseTag(al.Type()) {
-							baseCalls = append(baseCalls, x)
-						}
-					})
-				}
-			case *ssa.MapUpdate:
-				if c.Path(x.Key, nil) == `"@context"` {
-					ctxStore = x
-				}
+		hosts := append([]*ssa.Function{td}, c.helpersOf(td, 2)...)
+		// a producer builds the literal unconditionally (getBase); a function that builds it under a condition is a
+		// host with the literal written in place
+		producer := func(g *ssa.Function) bool {
+			if g == td || g.Blocks == nil {
+				return false
 			}
-		})
-		okB := len(baseCalls) == 1 && ctxStore != nil
+			is := false
+			forEachInstr(g, func(i2 ssa.Instruction) {
+				if al, isAl := i2.(*ssa.Alloc); isAl && hasBaseTag(al.Type()) && len(c.condsOf(al.Block())) == 0 {
+					is = true
+				}
+			})
+			return is
+		}
+		for _, h := range hosts {
+			if producer(h) {
+				continue
+			}
+			forEachInstr(h, func(in ssa.Instruction) {
+				switch x := in.(type) {
+				case *ssa.Call:
+					if g := x.Call.StaticCallee(); g != nil && inModule(g) && producer(g) {
+						sites = append(sites, site{h, x})
+					}
+				case *ssa.Alloc:
+					if hasBaseTag(x.Type()) {
+						sites = append(sites, site{h, x})
+					}
+				case *ssa.MapUpdate:
+					if h == td && c.Path(x.Key, nil) == `"@context"` {
+						ctxStore = x
+					}
+				}
+			})
+		}
+		okB := len(sites) == 1 && ctxStore != nil
 		var extra []string
 		if okB {
+			h := sites[0].host
 			common := map[string]bool{}
-			for _, cnd := range c.condsOf(ctxStore.Block()) {
-				common[cnd] = true
+			if h == td {
+				for _, cnd := range c.condsOf(ctxStore.Block()) {
+					common[cnd] = true
+				}
+			} else {
+				// in a helper: relative to the helper's accepting exit; and the helper itself is called unconditionally
+				// (relative to the store of the context)
+				srs := successReturns(h)
+				if len(srs) != 1 {
+					okB = false
+				} else {
+					for _, cnd := range c.condsOf(srs[0].Block()) {
+						common[cnd] = true
+					}
+				}
+				atStore := map[string]bool{}
+				for _, cnd := range c.condsOf(ctxStore.Block()) {
+					atStore[cnd] = true
+				}
+				nCalls := 0
+				for _, hh := range hosts {
+					for _, cl := range callsTo(hh, h) {
+						nCalls++
+						if hh != td {
+							okB = false
+							continue
+						}
+						for _, cnd := range c.condsOf(cl.Block()) {
+							if !atStore[cnd] {
+								extra = append(extra, "call of "+h.Name()+": "+cnd)
+							}
+						}
+					}
+				}
+				if nCalls != 1 {
+					okB = false
+				}
 			}
-			for _, cnd := range c.condsOf(baseCalls[0].Block()) {
+			for _, cnd := range c.condsOf(sites[0].call.Block()) {
 				if !common[cnd] {
 					extra = append(extra, cnd)
 				}
 			}
-			okB = len(extra) == 1 && extra[0] == "$0.includeBase=true"
+			okB = okB && len(extra) == 1 && extra[0] == "$0.includeBase=true"
 		}
-		c.Check("C18.P1", "@base-context-iff-includeBase", okB, td.Pos(), fmt.Sprintf("the @base context entry is added under the conditions %v (expected exactly [$0.includeBase=true]; %d producer call(s))", extra, len(baseCalls)))
+		c.Check("C18.P1", "@base-context-iff-includeBase", okB, td.Pos(), fmt.Sprintf("the @base context entry is added under the conditions %v (expected exactly [$0.includeBase=true]; %d producer call(s))", extra, len(sites)))
 	} else {
 		c.Unresolved("C18.P1", "(*Transformer).TransformDocument")
 	}
